@@ -179,6 +179,10 @@ enum Inject {
     /// hook-free fault source: RLIMIT_FSIZE = limit bytes for every output file of the child;
     /// the kernel kills the process (SIGXFSZ) or, with the signal ignored, fails the write (EFBIG)
     Fsize { limit: u64, ignore_signal: bool },
+    /// environment fault: the creator runs as an unprivileged user in a destination directory it
+    /// may not write to (no temporary file can be created there), while the existing destination
+    /// file itself is writable
+    ReadOnlyDir,
 }
 
 impl Inject {
@@ -200,12 +204,14 @@ impl Inject {
             Inject::Benign { seed } => format!("benign:{seed}"),
             Inject::InputErr { call } => format!("inputerr:{call}"),
             Inject::Fsize { limit, ignore_signal } => format!("fsize:{limit}:{}", if *ignore_signal { "efbig" } else { "kill" }),
+            Inject::ReadOnlyDir => "rodir".into(),
         }
     }
     fn decode(s: &str) -> Option<Inject> {
         let p: Vec<&str> = s.split(':').collect();
         Some(match p[0] {
             "none" => Inject::None,
+            "rodir" => Inject::ReadOnlyDir,
             "benign" => Inject::Benign { seed: p[1].parse().ok()? },
             "inputerr" => Inject::InputErr { call: p[1].parse().ok()? },
             "fsize" => Inject::Fsize { limit: p[1].parse().ok()?, ignore_signal: p[2] == "efbig" },
@@ -232,6 +238,7 @@ impl Inject {
             Inject::InputErr { .. } => "input-stream-error",
             Inject::Fsize { ignore_signal: false, .. } => "rlimit-fsize-kill",
             Inject::Fsize { ignore_signal: true, .. } => "rlimit-fsize-efbig",
+            Inject::ReadOnlyDir => "destination-directory-not-writable",
             Inject::Io { decision, .. } => match decision {
                 IoDecision::Fail(_) => "io-error",
                 IoDecision::Interrupted => "interrupted",
@@ -314,6 +321,27 @@ pub fn child_main(args: &Args) -> ! {
         Inject::InputErr { call } => {
             hooks.set_plan(Some(IoPlan::Record));
             opts.sim_cfg.err_at_call = Some(*call);
+        }
+        Inject::ReadOnlyDir => {
+            hooks.set_plan(Some(IoPlan::Record));
+            // what the harness itself needs in the directory exists beforehand
+            let inputs = case_dir.join(format!("{NAME}.inputs"));
+            let _ = std::fs::create_dir_all(&inputs);
+            use std::os::unix::fs::PermissionsExt;
+            let _ = std::fs::set_permissions(&inputs, std::fs::Permissions::from_mode(0o777));
+            if let Ok(rd) = std::fs::read_dir(&case_dir) {
+                for e in rd.flatten() {
+                    if e.path().is_file() {
+                        let _ = std::fs::set_permissions(e.path(), std::fs::Permissions::from_mode(0o666));
+                    }
+                }
+            }
+            let _ = std::fs::set_permissions(&case_dir, std::fs::Permissions::from_mode(0o555));
+            unsafe {
+                if libc::setgid(65534) != 0 || libc::setuid(65534) != 0 {
+                    simcore::harness_error("C09: cannot drop privileges for the read-only-directory case");
+                }
+            }
         }
         Inject::Fsize { limit, ignore_signal } => {
             hooks.set_plan(Some(IoPlan::Record));
@@ -561,6 +589,9 @@ fn injections(s: &Scenario, r: &Reference, tier: Tier) -> Vec<Inject> {
             l += stride;
         }
     }
+    if s.preexisting && !s.sim_source {
+        out.push(Inject::ReadOnlyDir);
+    }
     let n_benign = if tier == Tier::Quick { 6 } else { 40 };
     for j in 0..n_benign {
         out.push(Inject::Benign {
@@ -765,6 +796,8 @@ pub fn worker_main(args: &Args, w: usize, n: usize) -> ! {
                 Inject::InputErr { .. } => sim_err > 0,
                 // the limit bit if the creation did not end normally
                 Inject::Fsize { .. } => status != "ok",
+                // the directory refused the creator's temporary file if creation did not succeed
+                Inject::ReadOnlyDir => status != "ok",
                 Inject::None => false,
             };
             let (violation, state) = judge(s, inject, &status, &case_dir, &new_ref, old_ref.as_ref());
